@@ -77,6 +77,15 @@ type VList struct {
 }
 type VTuple []Val
 
+// VRef: &local (concrete mode): a reference to a variable cell, so that out-parameters
+// (collect(msgs, &contexts)) update the caller's variable.
+type VRef struct {
+	Cell *Val
+	Name string
+}
+
+func (v VRef) key() string { return "&" + v.Name }
+
 func (v VStr) key() string {
 	var b strings.Builder
 	for _, s := range v.Segs {
@@ -515,6 +524,10 @@ func (r *Run) Start(fn *types.Func) {
 		for _, f := range decl.Recv.List {
 			for _, n := range f.Names {
 				o := info.Defs[n]
+				if v, ok := r.startArgs[n.Name]; ok {
+					env.define(o, v)
+					continue
+				}
 				env.define(o, VSym{Key: n.Name, Typ: o.Type()})
 			}
 		}
@@ -576,6 +589,10 @@ func (r *Run) callBody(fn *types.Func, sig *types.Signature, pkg *packages.Packa
 }
 
 func (r *Run) zero(t types.Type) Val {
+	if r.W.Concrete && t.String() == "strings.Builder" {
+		r.structID++
+		return &VStruct{Name: "builder", Fields: map[string]Val{"buf": constStr("")}, id: r.structID, Concrete: true}
+	}
 	switch u := t.Underlying().(type) {
 	case *types.Basic:
 		switch {
@@ -808,9 +825,17 @@ func (r *Run) assign(s *ast.AssignStmt, env *Env) {
 			}
 			r.Assigned = append(r.Assigned, FieldAssign{Target: base.key() + "." + l.Sel.Name, Sel: l.Sel.Name, Val: v, Pos: l.Pos()})
 		case *ast.StarExpr:
-			// *p = v : ignored (not used by emitters for emitted text)
+			// *p = v : ignored (not used by emitters for emitted text) unless p is a reference to a local
+			if ref, ok := r.eval(l.X, env).(VRef); ok && ref.Cell != nil {
+				*ref.Cell = v
+			}
 		case *ast.IndexExpr:
 			// m[k] = v : maps/slices built by emitters are kept symbolic (concrete maps are updated)
+			if lst, ok := r.eval(l.X, env).(VList); ok && lst.Elems != nil && r.W.Concrete {
+				if iv, ok := r.eval(l.Index, env).(VInt); ok && iv.N >= 0 && int(iv.N) < len(lst.Elems) {
+					lst.Elems[iv.N] = v // slices share their backing array
+				}
+			}
 			if m, ok := r.eval(l.X, env).(*VStruct); ok && m.Name == "map" {
 				kv := r.eval(l.Index, env)
 				if _, had := m.Fields[kv.key()]; !had {
@@ -1231,6 +1256,11 @@ func (r *Run) equal(a, b Val, pos token.Pos, label string) bool {
 		a, b = b, a
 	}
 	if isConcrete(a) && isConcrete(b) {
+		if ai, ok := a.(VInt); ok {
+			if bi, ok := b.(VInt); ok {
+				return ai.N == bi.N // labels are spellings of the same number
+			}
+		}
 		return a.key() == b.key() && sameClass(a, b)
 	}
 	// a symbolic
@@ -1387,10 +1417,23 @@ func (r *Run) evalRaw(e ast.Expr, env *Env) Val {
 		}
 		return VSym{Key: base.key() + "." + x.Sel.Name, Typ: t}
 	case *ast.StarExpr:
-		return r.eval(x.X, env)
+		v := r.eval(x.X, env)
+		if ref, ok := v.(VRef); ok && ref.Cell != nil {
+			return *ref.Cell
+		}
+		return v
 	case *ast.UnaryExpr:
 		switch x.Op {
 		case token.AND:
+			if id, ok := ast.Unparen(x.X).(*ast.Ident); ok && r.W.Concrete {
+				if o := info.ObjectOf(id); o != nil {
+					if _, isSlice := o.Type().Underlying().(*types.Slice); isSlice {
+						if cell := env.lookup(o); cell != nil {
+							return VRef{Cell: cell, Name: id.Name}
+						}
+					}
+				}
+			}
 			return r.eval(x.X, env)
 		case token.NOT:
 			return VBool{B: !r.cond(x.X, env)}
@@ -1498,6 +1541,19 @@ func qualName(o types.Object) string {
 		return keyPkgName(o.Pkg()) + "." + o.Name()
 	}
 	return o.Name()
+}
+
+// foldConsts merges adjacent constant segments.
+func foldConsts(v VStr) VStr {
+	var out VStr
+	for _, sg := range v.Segs {
+		if sg.Hole == nil && len(out.Segs) > 0 && out.Segs[len(out.Segs)-1].Hole == nil {
+			out.Segs[len(out.Segs)-1].Const += sg.Const
+			continue
+		}
+		out.Segs = append(out.Segs, sg)
+	}
+	return out
 }
 
 // forwardTarget: for `func f(a, b) T { return g(a, b) }` (same parameters, same order) the function g.
@@ -1789,6 +1845,26 @@ func (r *Run) call(call *ast.CallExpr, env *Env) Val {
 			if v, ok := r.foldStrings(fn.Name(), call, env); ok {
 				return v
 			}
+			if fn.Name() == "Join" && len(call.Args) == 2 {
+				if l, ok := r.eval(call.Args[0], env).(VList); ok && l.Elems != nil {
+					if sep, ok := r.eval(call.Args[1], env).(VStr); ok {
+						if sc, ok := sep.isConst(); ok {
+							var out VStr
+							for i, e := range l.Elems {
+								if i > 0 && sc != "" {
+									out.Segs = append(out.Segs, Seg{Const: sc})
+								}
+								es, _ := toStr(e)
+								out.Segs = append(out.Segs, es.Segs...)
+							}
+							if len(out.Segs) == 0 {
+								return constStr("")
+							}
+							return foldConsts(out)
+						}
+					}
+				}
+			}
 			if fn.Name() == "Split" && len(call.Args) == 2 {
 				if a, ok := r.eval(call.Args[0], env).(VStr); ok {
 					if b, ok := r.eval(call.Args[1], env).(VStr); ok {
@@ -1911,6 +1987,9 @@ func (r *Run) followInValidation(fn *types.Func) bool {
 		return false
 	}
 	rel := strings.TrimPrefix(fn.Pkg().Path(), modPath+"/")
+	if (helperPkgs[rel] || rel == "internal/openapiv3") && r.W.Concrete {
+		return true // scenario mode: everything in the generator packages is interpreted
+	}
 	if helperPkgs[rel] || rel == "internal/openapiv3" {
 		// collectors (no result, or slice/map results built by append through
 		// out-parameters) stay symbolic lists; predicates, validators and
